@@ -105,7 +105,7 @@ func c04Answer(sv *harness.Server, q gen.Query, c gen.Client, maxAns int) string
 
 func runC04(r *report.Run) {
 	r.SetRule("metamorphic pairs: a generated file F and F' = F with random edits touching only records tagged with a foreign location L' (added at existing names, new names, apexes as SOA/NS, wildcards, new delegations, glue of existing NS targets; existing L'-tagged lines deleted) plus subnets of a new map bound to no name (new prefix lengths); both compiled to CDB, RocksDB v1 and v2; every generated query from every client whose location for that name is not L' must get the identical canonical response. non-trivial = (pair, query) where the edit touched the queried name, one of its ancestors or a name below it; distinct by (file, edit, query, client)")
-	r.Assume("clients located in L' itself are skipped (their answers may legitimately change); randomised address selection neutralised with max-answer >= candidates")
+	r.Assume("clients located in L' itself are sent but not compared (their answers may legitimately change); every other pair runs with the response cache enabled; randomised address selection neutralised with max-answer >= candidates")
 	npairs := r.Pick(40, 2000)
 	for i := 0; i < npairs; i++ {
 		seed := r.Seed*11000027 + int64(i)
@@ -117,13 +117,15 @@ func runC04(r *report.Run) {
 			foreign = "zz"
 		}
 		text2, edit, touched := c04Edit(w, foreign, seed)
-		before, err1 := openAll(w.Text(), harness.ServerOpts{})
+		// every other pair runs with the response cache on: a leak through a shared cache entry is a leak too
+		opt := harness.ServerOpts{Cache: i%2 == 1}
+		before, err1 := openAll(w.Text(), opt)
 		r.Eval(1)
 		if err1 != nil {
 			r.Violation("", "file rejected: "+err1.Error(), c04Case{WorldSeed: seed})
 			continue
 		}
-		after, err2 := openAll(text2, harness.ServerOpts{})
+		after, err2 := openAll(text2, opt)
 		if err2 != nil {
 			before.close()
 			r.Violation("", "edited file rejected: "+err2.Error(), c04Case{WorldSeed: seed, Foreign: foreign, EditLines: edit})
@@ -143,7 +145,13 @@ func runC04(r *report.Run) {
 		for _, q := range qs {
 			c := clients[rng.Intn(len(clients))]
 			if loc, _ := clientLoc(w.Maps, q.Name, c); loc == foreign {
-				r.Count("skipped_foreign_clients", 1)
+				// a client of the foreign location itself: its answers may change, so they are not compared,
+				// but the query is still sent (it may populate the response cache)
+				r.Count("uncompared_foreign_client_queries", 1)
+				for bi := range before.srv {
+					c04Answer(before.srv[bi], q, c, maxAns)
+					c04Answer(after.srv[bi], q, c, maxAns)
+				}
 				continue
 			}
 			related := c04Related(touched, q.Name)
@@ -159,6 +167,36 @@ func runC04(r *report.Run) {
 					r.Violation("", fmt.Sprintf("%s: response to %q type %d from %+v changed after an edit confined to location %q:\n--- before\n%s\n--- after\n%s\nedit: %v", before.srv[bi].B.Name, q.Name, q.Type, c, foreign, a, b, edit),
 						c04Case{WorldSeed: seed, Foreign: foreign, Backend: before.srv[bi].B.Name, Name: q.Name, Type: q.Type, Client: c, Before: a, After: b, EditLines: edit})
 					break
+				}
+			}
+		}
+		// the names the edit touched, asked first by a client of the foreign location and then by everybody else
+		for t := range touched {
+			for _, qt := range []uint16{1, 16, 28, 2} {
+				q := gen.Query{Name: t, Type: qt}
+				var others []gen.Client
+				for _, c := range clients {
+					if loc, _ := clientLoc(w.Maps, t, c); loc == foreign {
+						for bi := range before.srv {
+							c04Answer(before.srv[bi], q, c, maxAns)
+							c04Answer(after.srv[bi], q, c, maxAns)
+						}
+					} else {
+						others = append(others, c)
+					}
+				}
+				for _, c := range others {
+					for bi := range before.srv {
+						a := c04Answer(before.srv[bi], q, c, maxAns)
+						b := c04Answer(after.srv[bi], q, c, maxAns)
+						r.Count("response_pairs", 1)
+						r.Count("response_pairs_at_edited_names_after_a_foreign_client", 1)
+						if a != b {
+							r.Violation("", fmt.Sprintf("%s (cache=%v): response to %q type %d from %+v changed after an edit confined to location %q (a client of that location had asked the same question before):\n--- before\n%s\n--- after\n%s", before.srv[bi].B.Name, opt.Cache, q.Name, q.Type, c, foreign, a, b),
+								c04Case{WorldSeed: seed, Foreign: foreign, Backend: before.srv[bi].B.Name, Name: q.Name, Type: q.Type, Client: c, Before: a, After: b, EditLines: edit})
+							break
+						}
+					}
 				}
 			}
 		}
